@@ -40,6 +40,8 @@ func init() {
 			{Name: "valid", Run: runValid},
 			{Name: "pairs", Run: runPairs},
 			{Name: "noin", Run: runNoIn},
+			{Name: "spellings", Run: runSpellings},
+			{Name: "comments", Run: runComments},
 			{Name: "literals", Run: runLiterals},
 			{Name: "lexerrors", Run: runLexErrors},
 			{Name: "earlyerrors", Run: runEarlyErrors},
@@ -63,6 +65,14 @@ func init() {
 		engine.RegisterSignature("c04-quirk-"+q.String(), func(m *engine.Mismatch) bool { return explains(m, name) })
 	}
 	engine.RegisterSignature("c04-quirk-cr-x-lf", func(m *engine.Mismatch) bool { return explains(m, "q:cr-x-lf") })
+	engine.RegisterSignature("c04-inline-sourcemap", func(m *engine.Mismatch) bool {
+		src, ok := m.Input.(string)
+		if !ok || !c03.BadInlineSourceMap(src) {
+			return false
+		}
+		// the source-map error (not an ErrorList) is returned by ParseFile and by Run
+		return m.Expected == "*parser.ErrorList" && !strings.Contains(m.Observed, "ErrorList")
+	})
 	engine.RegisterSignature("c04-idx-empty-list", sigIdxEmptyList)
 	engine.RegisterSignature("c04-walk-typed-nil", sigWalkTypedNil)
 	engine.RegisterSignature("c04-silent-bad-node", sigSilentBadNode)
